@@ -11,9 +11,9 @@ import (
 // SwitchTable is a decoded `switch tag { case K...: return V }` function:
 // a finite map from constant case values to constant results.
 type SwitchTable struct {
-	Tag     ast.Expr
-	Rows    []SwitchRow
-	Default constant.Value // result when no case matches (nil if it panics or is non-constant)
+	Tag           ast.Expr
+	Rows          []SwitchRow
+	Default       constant.Value // result when no case matches (nil if it panics or is non-constant)
 	DefaultPanics bool
 	DefaultExpr   ast.Expr
 }
